@@ -6,6 +6,7 @@
 From Coq Require Import String.
 From RV Require Import Model.Base Model.GeomPrims Model.ViewBoxSpec Gen.SvgTables Gen.StructTables Gen.LeafViewBox.
 From RV Require Import Model.Structure Proofs.Structure.
+From RV Require Import Model.ShapePath Gen.ShapePaths Proofs.ShapePath Gen.UseClip.
 Local Open Scope Q_scope.
 
 (* associativity, identity, and pre_concat = matrix product (right factor applied first) *)
@@ -164,6 +165,85 @@ Theorem C10_nested_svg : forall t_attr st new_ts clip k sh,
 Proof. exact nested_svg_as_groups. Qed.
 Print Assumptions C10_nested_svg.
 
+(* ---- basic shape = its equivalent path (Gen/ShapePaths.v is transcribed from shapes.rs on every run) ------- *)
+(* polyline / polygon with n >= 2 points p0 .. p(n-1): exactly the segments of `M p0 L p1 .. L p(n-1) [Z]` - the same
+   as convert_path yields for that path data - for EVERY point list (repeated, coinciding, closing points included) *)
+Theorem C10_polyline_as_path : forall pts, (2 <= length pts)%nat ->
+  convert_polyline pts = convert_path (spec_points_data false pts)
+  /\ convert_polyline pts = Some (spec_points_path false pts).
+Proof. exact polyline_as_path. Qed.
+Print Assumptions C10_polyline_as_path.
+Theorem C10_polygon_as_path : forall pts, (2 <= length pts)%nat ->
+  convert_polygon pts = convert_path (spec_points_data true pts)
+  /\ convert_polygon pts = Some (spec_points_path true pts).
+Proof. exact polygon_as_path. Qed.
+Print Assumptions C10_polygon_as_path.
+(* no point is dropped or reordered: n (+1) segments, the i-th one ends in the i-th point *)
+Theorem C10_points_path_complete : forall closed pts,
+  (pts <> [] -> length (spec_points_path closed pts) = (length pts + (if closed then 1 else 0))%nat)
+  /\ (forall i, (i < length pts)%nat -> seg_end (nth i (spec_points_path closed pts) SZ) = Some (nth i pts (0, 0))).
+Proof. intros. split; [apply spec_points_path_length | apply spec_points_path_nth]. Qed.
+Print Assumptions C10_points_path_complete.
+Theorem C10_points_short_none : forall pts, (length pts < 2)%nat -> convert_polyline pts = None /\ convert_polygon pts = None.
+Proof. exact points_short_none. Qed.
+Print Assumptions C10_points_short_none.
+Theorem C10_line_as_path : forall x1 y1 x2 y2,
+  convert_line x1 y1 x2 y2 = convert_path [PMove x1 y1; PLine x2 y2]
+  /\ convert_line x1 y1 x2 y2 = Some [SM x1 y1; SL x2 y2].
+Proof. exact line_as_path. Qed.
+Print Assumptions C10_line_as_path.
+(* ellipse: M cx+rx,cy A .. cx,cy+ry A .. cx-rx,cy A .. cx,cy-ry A .. cx+rx,cy Z; nothing unless both radii are positive *)
+Theorem C10_ellipse_as_path : forall cx cy rx ry,
+  (0 < rx /\ 0 < ry -> osegs_eq (convert_ellipse cx cy rx ry) (Some (spec_ellipse_path cx cy rx ry)))
+  /\ (~ (0 < rx /\ 0 < ry) -> convert_ellipse cx cy rx ry = None).
+Proof. exact convert_ellipse_spec. Qed.
+Print Assumptions C10_ellipse_as_path.
+Theorem C10_circle_as_ellipse : forall cx cy r,
+  (0 < r -> convert_circle cx cy r = convert_ellipse cx cy r r
+            /\ osegs_eq (convert_circle cx cy r) (Some (spec_ellipse_path cx cy r r)))
+  /\ (~ 0 < r -> convert_circle cx cy r = None).
+Proof. exact circle_as_ellipse. Qed.
+Print Assumptions C10_circle_as_ellipse.
+(* rect with resolved, clamped radii: the SVG 1.1 9.2 path when rx <> 0, else M x,y H x+w V y+h H x Z *)
+Theorem C10_rect_as_path : forall x y w h rx ry,
+  (~ rx == 0 -> osegs_eq (rect_path x y w h rx ry) (Some (spec_round_rect_path x y w h rx ry)))
+  /\ (rx == 0 -> rect_path x y w h rx ry = convert_path [PMove x y; PLine (x + w) y; PLine (x + w) (y + h); PLine x (y + h); PClose]).
+Proof. exact rect_path_spec. Qed.
+Print Assumptions C10_rect_as_path.
+
+(* ---- use -> symbol as groups; the viewport clip decision (Gen/UseClip.v is transcribed from use_node.rs) ---------- *)
+(* a use of a symbol = group(use transform, use style) > viewport clip > group(translate(x, y) . viewBox transform, symbol
+   style) > copy: same accumulated opacity and transform for the content, same clips above it in the same coordinate
+   systems - outside the known class use-symbol-style-in-parent-space *)
+Theorem C10_use_symbol_as_groups : forall id orig_ts new_ts st sym_st clip k sh,
+  use_symbol_known_class clip st orig_ts = false ->
+  match cleaves_of (convert_use_symbol id orig_ts new_ts st sym_st clip [TLeaf k sh]),
+        cleaves_of (expand_use_symbol id orig_ts new_ts st sym_st clip [TLeaf k sh]) with
+  | [(i, o, t, c)], [(j, p, u, d)] => i = j /\ (o == p)%Q /\ ts_eq t u /\ clip_set_eq c d
+  | _, _ => False
+  end.
+Proof. exact use_symbol_as_groups_guarded. Qed.
+Print Assumptions C10_use_symbol_as_groups.
+(* ... inside the class the clause is violated (reproduced on the real code, see known_findings proposal) *)
+Theorem C10_use_symbol_as_groups_refuted :
+  exists id orig_ts new_ts st sym_st clip k sh,
+    use_symbol_known_class clip st orig_ts = true /\
+    ~ match cleaves_of (convert_use_symbol id orig_ts new_ts st sym_st clip [TLeaf k sh]),
+            cleaves_of (expand_use_symbol id orig_ts new_ts st sym_st clip [TLeaf k sh]) with
+      | [(i, o, t, c)], [(j, p, u, d)] => i = j /\ (o == p)%Q /\ ts_eq t u /\ clip_set_eq c d
+      | _, _ => False
+      end.
+Proof. exact use_symbol_as_groups_refuted. Qed.
+Print Assumptions C10_use_symbol_as_groups_refuted.
+Theorem C10_viewport_clip_decision : forall (is_svg : bool) (ov : option string) us0 us1 hw hh x y w h,
+  let off := match ov with Some o => existsb (String.eqb o) ["visible"; "auto"]%string | None => false end in
+  let size := if is_svg then override_size us0 us1 {| sw := w; sh := h |} else {| sw := w; sh := h |} in
+  get_clip_rect is_svg ov us0 us1 hw hh x y w h =
+    if off || (is_svg && is_none us0 && is_none us1 && negb (hw && hh)) || negb (Qltb 0 (sw size) && Qltb 0 (sh size))
+    then None else Some (clip_rect x y size).
+Proof. exact viewport_clip_decision. Qed.
+Print Assumptions C10_viewport_clip_decision.
+
 (* ---- non-vacuity ---------------------------------------------------------------------------------- *)
 Local Open Scope string_scope.
 Definition ex_leaf := SLeaf 7%N 1%N.
@@ -192,3 +272,20 @@ Example C10_nv_radii :
    fst (rect_radii 50 30 (Some (-3)) (Some 5)) == 5 /\ snd (rect_radii 50 30 (Some (-3)) (Some 5)) == 5 /\
    fst (rect_radii 50 30 None None) == 0)%Q.
 Proof. vm_compute. repeat split. Qed.
+Example C10_nv_polygon_closed :
+  convert_polygon [(0, 0); (10, 0); (10, 10); (0, 0)] = Some [SM 0 0; SL 10 0; SL 10 10; SL 0 0; SZ]
+  /\ convert_polygon [(1, 1); (1, 1)] = Some [SM 1 1; SL 1 1; SZ] /\ convert_polygon [(1, 1)] = None
+  /\ convert_polyline [(0, 0); (0, 0); (5, 5)] = Some [SM 0 0; SL 0 0; SL 5 5].
+Proof. vm_compute. repeat split. Qed.
+Example C10_nv_rect_round :
+  convert_rect 0 0 50 30 (Some 4) None = Some (spec_round_rect_path 0 0 50 30 4 4)
+  /\ convert_rect 0 0 0 30 None None = None.
+Proof. vm_compute. split; reflexivity. Qed.
+Example C10_nv_use_symbol :
+  use_symbol_known_class (Some 9%N) ex_st (from_translate 50 0) = false /\
+  cleaves_of (convert_use_symbol 3%N (from_translate 50 0) (from_scale 2 2) ex_st plain (Some 9%N) [TLeaf 7%N 1%N])
+  = [(7%N, (1 * 1 * (1 # 2) * 1)%Q, ts_concat (ts_concat (ts_concat ts_identity (from_translate 50 0)) ts_identity) (from_scale 2 2),
+      [(9%N, ts_concat ts_identity (from_translate 50 0))])] /\
+  get_clip_rect true None None None true false 1 2 30 40 = None /\
+  get_clip_rect true (Some "hidden") (Some 5) None false false 1 2 30 40 = Some {| rx := 1; ry := 2; rw := 5; rh := 40 |}.
+Proof. repeat split. Qed.
